@@ -104,7 +104,7 @@ theorem normalize_in_reference (G : Grammar) (ok : Grammar.Ok G) (okp : Grammar.
     ∃ h', (Ref.path_mut w).normalize = some h' ∧ RE.Matches G.reference h'.buffer ∧
       split h'.buffer = { split w with path := h'.view } ∧
       realises h'.view (nsegs (split w).path) = true := by
-  obtain ⟨h', e, hv, hs⟩ := path_session_valid G ok okp w h [.norm] (by intro op hop; simp at hop; subst hop; trivial)
+  obtain ⟨h', e, hv, hs, _⟩ := path_session_valid G ok okp w h [.norm] (by intro op hop; simp at hop; subst hop; trivial)
   have en : (Ref.path_mut w).normalize = some h' := by
     simp only [Props.C10.pathRun, Props.C10.pathStep] at e
     cases hp : (Ref.path_mut w).normalize with
